@@ -56,7 +56,17 @@ def extract_hdf5_datasets(filename, memmap=True):
             elif item.dtype.kind in ('V',):
                 arrays[full_path] = Table.read(item, format='hdf5')
 
-    file_handle.visititems(visitor)
+    # Note that we don't use file_handle.visititems here since that always
+    # visits the items in alphabetical order, even if the file keeps track of
+    # the order in which the items were created.
+    def visit_group(group):
+        for name, item in group.items():
+            if isinstance(item, h5py.Group):
+                visit_group(item)
+            else:
+                visitor(name, item)
+
+    visit_group(file_handle)
     file_handle.close()
 
     # Now create memory-mapped arrays
